@@ -248,6 +248,26 @@ theorem special_operators (l r : FClass) :
 /-- An unparsable (or out-of-range) operand leaves the result alone. -/
 theorem special_unparsable (op : Op) (l : FClass) : staticCmpSpecial op l none = .untouched := rfl
 
+/-- The generated comparison on special values (`genCmpSpecial`, FC records of C04) is, on finite values, the
+six-way switch of the emitter model (`cmpSix`). -/
+theorem special_gen_fin_agrees (op : Int) (a b : Int) :
+    genCmpSpecial op (.fin a) (some (.fin b)) = cmpSix op (.float a) (.float b) := by
+  simp only [genCmpSpecial, cmpSix, ieeeCmp, FClass.eq, FClass.lt, valEq, valLt]
+  by_cases h1 : op = 1
+  · subst h1; simp
+  by_cases h2 : op = 2
+  · subst h2; simp
+  by_cases h3 : op = 3
+  · subst h3; simp
+  by_cases h4 : op = 4
+  · subst h4; simp
+  by_cases h5 : op = 5
+  · subst h5; simp
+  by_cases h6 : op = 6
+  · subst h6; simp
+  have hr : ¬ (1 ≤ op ∧ op ≤ 6) := by omega
+  simp [h1, h2, h3, h4, h5, h6, hr]
+
 example : ieeeCmp 5 .nan (.fin 1048576) = false ∧ ieeeCmp 1 .nan .nan = false ∧ ieeeCmp 2 .nan .nan = true ∧
     ieeeCmp 3 (.fin 1048576) .nan = false := by decide
 end SpecialFloats
